@@ -12,6 +12,8 @@ def check(run, replay):
     if not replay and not thorough:
         # every complete behaviour of the bounded model is exported (a few thousand); the quick tier replays a seeded stride
         args += ["-budget", "100s", "-stride", "7", "-offset", str(run.seed % 7)]
+    elif not replay:
+        args += ["-budget", "900s", "-stride", "3", "-offset", str(run.seed % 3)]
     run.run_driver(binary, args, timeout=5000)
     r = json.load(open(out))
     if not replay:
@@ -20,6 +22,8 @@ def check(run, replay):
         argsp = ["-enc", os.path.join(run.tmp, "crypto-peer.ndjson"), "-out", outp]
         if not thorough:
             argsp += ["-budget", "80s", "-stride", "2", "-offset", str(run.seed % 2)]
+        else:
+            argsp += ["-budget", "600s"]
         run.run_driver(binary, argsp, timeout=5000)
         rp = json.load(open(outp))
         for k, v in rp.items():
